@@ -117,7 +117,7 @@ def finish(prop, tier, seed, repo, hs, results, extra, wall, args):
                 native_fail = cr["failed"][0]
             if cr["errors"] and native_fail is None:
                 native_fail = {"inputs": cr["errors"][0]["inputs"], "obligations": [("noexc", cr["errors"][0]["error"])]}
-            for m in cr.get("engine_mismatch", []) or []:
+            for m in (cr.get("engine_mismatch", []) or [])[:1]:
                 errors.append("%s: engine/CPython disagreement on %s" % (ident, json.dumps(m, default=repr)[:600]))
             if cr["samples"] and len(samples) < 6:
                 samples.append({"harness": ident, "concrete_input": cr["samples"][0]})
